@@ -37,8 +37,8 @@ fcppt::random::distribution::parameters::uniform_int<IntType, Distribution>::con
     distribution const &_dist)
 {
   return uniform_int(
-      min(fcppt::random::distribution::decorated_value(_dist.a())),
-      max(fcppt::random::distribution::decorated_value(_dist.b())));
+      min(fcppt::random::distribution::decorated_value<IntType>(_dist.a())),
+      max(fcppt::random::distribution::decorated_value<IntType>(_dist.b())));
 }
 
 #endif
